@@ -143,6 +143,140 @@ except FileNotFoundError:
     pass
 
 
+# ---------------------------------------------------------------------------------------------- R-AVAL
+VTABLE = os.path.join(VERIF, 'tables', 'atomic_values.json')
+WRITE_OPS = {'store': 0, 'exchange': 0, 'compare_exchange_strong': 1, 'compare_exchange_weak': 1, 'fetch_add': 0, 'fetch_sub': 0,
+             'fetch_or': 0, 'fetch_and': 0, 'fetch_xor': 0}
+
+
+def _const(a):
+    """normalised constant written by an argument expression, None when it is not a compile-time constant"""
+    if not isinstance(a, dict): return None
+    if a.get('op') == 'path':
+        p = a.get('p') or ''
+        if 'memory_order' in p: return None
+        if p.startswith('#'): return p.split('::')[-1] if '::' in p else p     # literal / enumerator / nullptr
+        return None
+    if a.get('op') == 'un' and a.get('o') in ('-', '~'):
+        c = _const(a.get('e'))
+        return None if c is None else a['o'] + c
+    if a.get('op') == 'bin':
+        l, r = _const(a.get('l')), _const(a.get('r'))
+        if l is not None and r is not None: return '(%s%s%s)' % (l, a.get('o'), r)
+    return None
+
+
+def _local_const_inits(f):
+    """local variable -> constant it is initialised with, for locals that are declared once with a constant and never assigned"""
+    init, bad = {}, set()
+    for b, i, e in events(f):
+        if e['k'] == 'decl':
+            for v in e['vars']:
+                c = _const(v.get('init'))
+                if v['var'] in init or c is None: bad.add(v['var'])
+                init[v['var']] = c
+        elif e['k'] in ('assign', 'incdec'):
+            bad.add(e.get('lhs'))
+    return {k: v for k, v in init.items() if k not in bad and v is not None}
+
+
+def value_sites(F):
+    out = []
+    for f in F.funcs:
+        loc = None
+        for b, i, e in events(f):
+            if e['k'] != 'call': continue
+            ce = e['callee']; nm = ce.get('name')
+            if nm not in WRITE_OPS: continue
+            if not memorder(e) and 'atomic' not in (ce.get('basetype', '') + ce.get('qname', '')): continue
+            if (e.get('macro') or '').startswith(('UNIFEX_ASSERT', 'assert')): continue
+            args = e.get('args', [])
+            idx = WRITE_OPS[nm]
+            if idx >= len(args): continue
+            c = _const(args[idx])
+            frm = None
+            if nm.startswith('compare_exchange') and isinstance(args[0], dict) and args[0].get('op') == 'path':
+                if loc is None: loc = _local_const_inits(f)
+                frm = loc.get(args[0].get('p'))
+            if c is None and frm is None: continue
+            member = (last_field(ce.get('base', '')) or '?').replace('#next_op_base::', '')
+            out.append(dict(file=f['file'], fn=norm_fn(f['qname']), member=member, op=nm, value=c, expected=frm, line=e['line'], f=f))
+    return out
+
+
+def _check_values(run, F, prop):
+    with open(VTABLE) as fh: tab = [r for r in json.load(fh)['sites'] if r['prop'] == prop]
+    if not tab: raise Broken('no value rows for ' + prop)
+    cur = collections.defaultdict(list)
+    for s in value_sites(F): cur[(s['fn'], s['member'], s['op'])].append(s)
+    need = collections.defaultdict(list)
+    for r in tab: need[(r['fn'], r['member'], r['op'])].append(r)
+    for key, rows in sorted(need.items()):
+        have = cur.get(key, [])
+        if not have:
+            if all(r.get('cxx20') for r in rows) and '17' in F.config:
+                run.inst('%s %s' % (rows[0]['file'], key[0]), 'C++20-only code: absent from this configuration', nontrivial=False, key=key + ('n/a',)); continue
+            if all(F.config not in r.get('configs', [F.config]) for r in rows):
+                run.inst('%s %s' % (rows[0]['file'], key[0]), 'absent from this configuration', nontrivial=False, key=key + ('n/a',)); continue
+            run.broke('atomic write site with a constant operand vanished: %s %s.%s' % key); continue
+        want = sorted((r.get('value') or '-', r.get('expected') or '-') for r in rows)
+        got = sorted((s.get('value') or '-', s.get('expected') or '-') for s in have)
+        run.inst('%s:%s %s' % (have[0]['file'], have[0]['line'], key[0]), '%s.%s writes %s' % (key[1], key[2], want), key=key)
+        if want != got:
+            # which constants changed
+            extra = [g for g in got if g not in want]; missing = [w for w in want if w not in got]
+            s = have[0]
+            for h in have:
+                if ((h.get('value') or '-', h.get('expected') or '-')) in extra: s = h; break
+            run.violation(s['f']['qname'], 'aval:%s.%s' % (key[1], key[2]), '%s:%s' % (s['file'], s['line']),
+                          '%s.%s in %s now writes/expects (new value, expected value) %s where the frozen protocol table has %s: a state transition, count or flag value of the protocol changed' % (
+                              key[1], key[2], key[0].split('::')[-1], extra or got, missing or want))
+
+
+def _mkv(prop, floor):
+    @rule('R-AVAL-' + prop, [prop], floor=floor)
+    def r(run, F, prop=prop):
+        _check_values(run, F, prop)
+    r.__doc__ = 'every atomic store/exchange/RMW/compare-exchange of %s that writes a compile-time constant (enumerator, literal, nullptr, flag) - and every compare-exchange whose expected value is a local initialised with a constant - writes/expects the constant frozen in tables/atomic_values.json: the transition relation of the state machines, the amounts of the reference counts and the polarity of the flags are unchanged (variables are not compared; a vanished site is analysis-broken)' % prop
+    from .. import core
+    core.RULES['R-AVAL-' + prop]['doc'] = r.__doc__
+    return r
+
+
+try:
+    with open(VTABLE) as _fh: _vt = json.load(_fh)['sites']
+    _vc = collections.Counter(r['prop'] for r in _vt)
+    for _p, _n in sorted(_vc.items()):
+        _mkv(_p, max(1, len({(r['fn'], r['member'], r['op']) for r in _vt if r['prop'] == _p}) // 3))
+except FileNotFoundError:
+    pass
+
+
+def freeze_values():
+    from .. import extract
+    from ..facts import Facts
+    cfgs = ['d20', 'd17', 'r17', 'r20', 'v20']
+    files, dg = extract.extract(cfgs)
+    per = {c: value_sites(Facts(files[c], c)) for c in cfgs}
+    k17 = {(s['fn'], s['member'], s['op']) for s in per['d17']}
+    rows = []
+    base = per['d20']
+    for s in sorted(base, key=lambda s: (s['file'], s['line'])):
+        p = prop_of_file(s['file'])
+        if not p: print('UNOWNED', s['file'], s['line'], s['fn'], s['member'], s['op'], s['value']); continue
+        r = dict(prop=p, file=s['file'], fn=s['fn'], member=s['member'], op=s['op'], value=s['value'], expected=s['expected'])
+        if (s['fn'], s['member'], s['op']) not in k17: r['cxx20'] = True
+        rows.append(r)
+    # consistency across configurations
+    for c in cfgs:
+        a = sorted((s['fn'], s['member'], s['op'], s['value'] or '', s['expected'] or '') for s in per[c])
+        b = sorted((s['fn'], s['member'], s['op'], s['value'] or '', s['expected'] or '') for s in base if not ('17' in c and (s['fn'], s['member'], s['op']) not in k17))
+        if a != b: print('DIFFERS in', c, set(a) ^ set(b))
+    with open(VTABLE, 'w') as fh:
+        json.dump(dict(_doc='frozen constants written by atomic sites; see usa/rules/atomics.py (R-AVAL)', sites=rows), fh, indent=0)
+    print(len(rows), 'sites', collections.Counter(r['prop'] for r in rows))
+
+
 ROLE_HINT = {
     ('fetch_sub', 'acq_rel'): 'last-owner election: the winner must see every other owner\'s writes and publish its own',
     ('fetch_add', 'relaxed'): 'bail-out increment; ordering supplied by the matching decrement',
@@ -181,3 +315,4 @@ def freeze():
 
 if __name__ == '__main__':
     if '--freeze' in sys.argv: freeze()
+    if '--freeze-values' in sys.argv: freeze_values()
